@@ -64,18 +64,20 @@ def _shape(ws):
             what="routing of TickAddEvent(e, target) against the statement's oracle: accepting steps get e exactly once, "
                  "pending matching waiters get it as wait result, others untouched, UnhandledEvent exactly when nobody takes it",
             bounds={"steps": 2, "num_workers(a)": "1..2", "queue": "0..QMAX", "waiter": "none/pending/resolved/timed-out",
-                    "event": "EvA/EvB/EvC/InputRequired subclass", "target": "none/a/b", "b accepts": "EvB,Start (+EvA) (+EvC)"})
+                    "event": "EvA/EvB/EvC/InputRequired subclass", "target": "none/a/b", "b accepts": "EvB,Start (+EvA) (+EvC)", "a accepts": "EvA (+EvC = the type its waiter waits for)"})
 def ob_route_add_event(nw: int, b0: bool, b1: bool, q: int, wk: int, evk: int, target: int, b_acc_a: bool, b_acc_c: bool,
-                       bb: bool, bq: int) -> bool:
+                       bb: bool, bq: int, a_acc_c: bool = False) -> bool:
     """
     pre: 1 <= nw <= 2 and world_ab_valid(nw, b0, b1, False, q, bb, bq) and q <= QMAX and bq <= 1
     pre: 0 <= wk <= 3 and 0 <= evk <= 3 and 0 <= target <= 2
-    pre: target != 1 or evk == 0
+    pre: target != 1 or evk == 0 or (evk == 2 and a_acc_c)
     pre: target != 2 or evk == 1 or (evk == 0 and b_acc_a) or (evk == 2 and b_acc_c)
     post: _
     """
     b_accepts = [EvB, StartEvent] + ([EvA] if b_acc_a else []) + ([EvC] if b_acc_c else [])
-    st = world_ab(nw, b0, b1, False, q, wait_kind=wk, b_busy=bb, b_q=bq, b_accepts=b_accepts)
+    # step a may also ACCEPT the type its waiter waits for (EvC): then a pending waiter takes the event as wait result and a
+    # stale (resolved / timed-out) or absent waiter leaves it to be delivered as an ordinary input
+    st = world_ab(nw, b0, b1, False, q, wait_kind=wk, b_busy=bb, b_q=bq, b_accepts=b_accepts, a_accepts=([EvA, EvC] if a_acc_c else [EvA]))
     ev = E_A if evk == 0 else (E_B if evk == 1 else (E_C if evk == 2 else E_ASK))
     tgt = None if target == 0 else ("a" if target == 1 else "b")
     tick = TickAddEvent.model_construct(event=ev, step_name=tgt, attempts=None, first_attempt_at=None,
@@ -83,7 +85,7 @@ def ob_route_add_event(nw: int, b0: bool, b1: bool, q: int, wk: int, evk: int, t
     st2, cmds = _reduce_tick(tick, st, 1)
     # ---- oracle from the statement
     a_waits = wk == W_PENDING and evk == 2 and (tgt is None or tgt == "a")  # a's waiter waits for EvC
-    accepts = {"a": evk == 0, "b": evk == 1 or (evk == 0 and b_acc_a) or (evk == 2 and b_acc_c)}
+    accepts = {"a": evk == 0 or (evk == 2 and a_acc_c), "b": evk == 1 or (evk == 0 and b_acc_a) or (evk == 2 and b_acc_c)}
     W = {"a"} if a_waits else set()
     A = {s for s in ("a", "b") if accepts[s] and (tgt is None or tgt == s) and s not in W}
     for s in ("a", "b"):
